@@ -188,7 +188,15 @@ pub fn run(args: &[Val]) -> Val {
             "settle" => {
                 let ok = settle(&probe, &rx);
                 if !ok {
-                    log.lock().unwrap().push("settle-timeout".into());
+                    // with the worker parked at a hold point the schedule simply has no settled state here; with
+                    // the worker free an unanswered probe is only believed after a much longer wait, so that a
+                    // slow machine is not mistaken for a worker that has stopped serving its events
+                    let parked = armed.iter().any(|a| a.starts_with("worker:"));
+                    if parked {
+                        log.lock().unwrap().push("settle-timeout".into());
+                    } else if rx.recv_timeout(Duration::from_millis(3000)).is_err() {
+                        log.lock().unwrap().push("worker-stuck".into());
+                    }
                 }
             }
             _ => {}
@@ -199,7 +207,9 @@ pub fn run(args: &[Val]) -> Val {
         let ok = h.join().unwrap_or(false);
         log.lock().unwrap().push(format!("reply:{}:{}", name, if ok { "ok" } else { "err" }));
     }
-    let _ = settle(&probe, &rx);
+    if !settle(&probe, &rx) && rx.recv_timeout(Duration::from_millis(3000)).is_err() {
+        log.lock().unwrap().push("worker-stuck".into());
+    }
     let pending = kick.read().unwrap_or(0);
     let mut out: Vec<Val> = log.lock().unwrap().iter().map(|s| Val::s(s)).collect();
     out.push(Val::s(&format!("pending:{}", pending)));
